@@ -156,6 +156,27 @@ fn run(ctx: &mut Ctx) {
         }
         fit(ctx, &pts, FAMILIES[fam]);
     });
+    // ---- inclined, (numerically) collinear clusters: the exact-collinearity test lets some of them through
+    // with a circle of astronomically large radius; the pitch guess then divides by an angle that may be exactly 0
+    let n = ctx.tier.pick(40_000, 800_000);
+    ctx.cases("inclined-rays", n, |ctx, i, rng| {
+        let phi = rng.range(-PI, PI);
+        let slope = if i % 3 == 0 { 1.0 } else { rng.range(-3.0, 3.0) };
+        let z0 = rng.range(-0.3, 0.3);
+        let r1 = rng.range(0.05, 0.12);
+        let r3 = rng.range(0.18, 0.25);
+        // middle point: anywhere, or very close to the inner one
+        let r2 = if rng.bool() { r1 + rng.range(0.0, 0.02) } else { rng.range(r1, r3) };
+        let mk = |r: f64| sp(r, phi, (z0 + slope * r).clamp(-1.3, 1.3));
+        let mut pts = vec![mk(r1), mk(r2), mk(r3)];
+        // fill up to 13 points on the same ray between the extremes (they do not change the three template points
+        // unless one of them is closer to the mean radius than r2 - both situations are wanted)
+        while pts.len() < 13 {
+            let r = if i % 2 == 0 { *rng.pick(&[r1, r2, r3]) } else { rng.range(r1, r3) };
+            pts.push(mk(r));
+        }
+        fit(ctx, &pts, "inclined ray (same phi, z = a r + b)");
+    });
     // ---- hook-free: point sets through cluster_spacepoints, then every cluster fitted
     let n = ctx.tier.pick(160, 6000);
     ctx.cases("clouds", n, |ctx, i, rng| {
